@@ -583,7 +583,7 @@ def run(rep, tier):
     rep.assumptions += [
         'which problem parameters are read-only is read from the problem classes (readOnly=True in testequation0d / test_equation_IMEX) plus whatever the object lists in _parNamesReadOnly',
         'a fault is demanded to be rejected only where the faulty entry is consulted (initial_guess on the finest level only, predict_type with several levels only, PFASST node condition with num_procs>1 and several levels only); unknown extra keys are not judged',
-        'which transfer-parameter entry a level pair receives is not judged (the statement names problem, node and step-size parameters); the number of levels is',
+        'which level\'s transfer entry a level pair receives is the library\'s convention and not judged; judged (part D): class and parameters of one transfer object come from one list position, the last entry repeats, scalars are shared; the number of levels is',
     ]
     r = common.rng('c20')
     viols = []
@@ -639,20 +639,28 @@ def run(rep, tier):
             cv.append((sig, det, {'part': 'convergence_controllers', 'subset': list(arg[0]), 'reverse': arg[1], 'P': arg[2]}))
     cv = _min_by(cv, lambda s: common.canon({k: s[k] for k in s if k in ('kind', 'class', 'classes', 'parameter')}))
 
-    for sig, det, rp in gv + fv + cv:
+    # D. transfer entries
+    tcases = transfer_cases()
+    tv = []
+    for arg, out in zip(tcases, common.pmap(transfer_case, tcases, chunksize=4)):
+        for sig, det in out:
+            tv.append((sig, det, {'part': 'transfer', 'arg': list(arg)}))
+    tv = _min_by(tv, lambda s: common.canon({k: s[k] for k in s if k in ('kind', 'entry')}))
+
+    for sig, det, rp in gv + fv + cv + tv:
         rep.violation(sig, det, rp)
 
     nB = len(cases)
     nC = len(ccases)
     rep.coverage.update(
         {
-            'evaluations': nA + nB + nC + nfrozen + nro,
+            'evaluations': nA + nB + nC + nfrozen + nro + len(tcases),
             'distinct_nontrivial': multi + (nB - len(BASES)) + sum(1 for c in ccases if len(c[0]) >= 2),
             'rule': 'A: every shape assignment (scalar | list of length 1..4) of the 12 list-capable entries with at most '
             f'{2 if tier == "quick" else 3} list-valued entries, non-trivial iff some list has length >= 2 (several levels); '
             'B: every entry of the single-fault table of 7 valid bases (non-trivial: every fault; the 7 bases themselves are the over-rejection controls), '
             'every frozen object reachable from each base controller, every read-only parameter of every problem instance; '
-            'C: every subset of the controller pool in both insertion orders, non-trivial iff >= 2 classes. All cases are distinct by construction.',
+            'C: every subset of the controller pool in both insertion orders, non-trivial iff >= 2 classes; D: 2..4 levels x every combination of scalar | list of length 1..levels for space_transfer_class, space_transfer_params, base_transfer_params. All cases are distinct by construction.',
             'samples': [
                 _grammar_sample(order),
                 {'fault_case': ['pfasst3', ['set', 'sweeper_params', 'quad_type', 'GAUSS', 1]], 'outcome': [r['rejected_with'] for r in fres if r['base'] == 'pfasst3' and r['fault'] == ['set', 'sweeper_params', 'quad_type', 'GAUSS', 1]]},
@@ -670,6 +678,7 @@ def run(rep, tier):
                 'frozen_classes': sorted(fclasses),
                 'readonly_parameters_probed': nro,
                 'controller_subsets': nC,
+                'transfer_list_shapes': len(tcases),
                 'controller_pool': POOLNAMES[:npool],
             },
         }
@@ -685,6 +694,87 @@ def _grammar_sample(order):
         'expected_levels': len(expected),
         'expected_per_level': [{k: e[k] for k in ('level_params.dt', 'level_params.nsweeps', 'sweeper_params.num_nodes', 'sweeper_params.QI', 'sweeper_class')} for e in expected],
     }
+
+
+# ------------------------------------------------------------------------------------------------
+# D. the three entries that describe one level transfer come from one position of their lists
+# ------------------------------------------------------------------------------------------------
+class _TrA(IdentityTransfer):
+    pass
+
+
+class _TrB(IdentityTransfer):
+    pass
+
+
+class _TrC(IdentityTransfer):
+    pass
+
+
+class _TrD(IdentityTransfer):
+    pass
+
+
+TR_CLASSES = [_TrA, _TrB, _TrC, _TrD]
+TR_SPACE = [{'rorder': 2, 'iorder': 2}, {'rorder': 2, 'iorder': 4}, {'rorder': 2, 'iorder': 6}, {'rorder': 2, 'iorder': 8}]
+TR_BASE = [{'finter': False, 'coll_iorder': 1}, {'finter': True, 'coll_iorder': 1}, {'finter': False, 'coll_iorder': 2}, {'finter': True, 'coll_iorder': 2}]
+
+
+def transfer_case(arg):
+    """arg = (number of levels, length of the class list, of the space-parameter list, of the base-parameter list; 0 =
+    scalar).  Which level's entry a level pair receives is the library's convention and not judged; judged are (1) a
+    transfer object whose class list and parameter lists have the same length gets all three entries from ONE
+    position, (2) the last pair of a hierarchy longer than a list gets that list's last entry (the last entry repeats),
+    (3) a scalar entry is shared by all pairs."""
+    nlev, ncl, nsp, nbp = arg
+    out = []
+    descr = {
+        'problem_class': CLASSES['PrA'],
+        'problem_params': {'u0': 1.0, 'lambdas': np.array(LAM[0])},
+        'sweeper_class': CLASSES['SwA'],
+        'sweeper_params': {'num_nodes': 3, 'quad_type': 'RADAU-RIGHT', 'QI': 'IE'},
+        'level_params': {'dt': [0.1 / 2**i for i in range(nlev)], 'nsweeps': 1},
+        'step_params': {'maxiter': 1},
+        'space_transfer_class': TR_CLASSES[:ncl] if ncl else TR_CLASSES[0],
+        'space_transfer_params': copy.deepcopy(TR_SPACE[:nsp]) if nsp else dict(TR_SPACE[0]),
+        'base_transfer_params': copy.deepcopy(TR_BASE[:nbp]) if nbp else dict(TR_BASE[0]),
+    }
+    sig0 = {'part': 'transfer', 'levels': nlev, 'class_list': ncl, 'space_params_list': nsp, 'base_params_list': nbp}
+    try:
+        ctrl = controller_nonMPI(num_procs=1, controller_params={'logger_level': 90, 'dump_setup': False}, description=descr)
+    except Exception as e:  # noqa: BLE001
+        out.append(({**sig0, 'kind': 'valid_description_rejected'}, {'error': f'{type(e).__name__}: {e}'[:200]}))
+        return out
+    S = ctrl.MS[0]
+    if len(S.levels) != nlev:
+        out.append(({**sig0, 'kind': 'number_of_levels'}, {'expected': nlev, 'observed': len(S.levels)}))
+        return out
+    td = S._Step__transfer_dict
+    seen = []
+    for l in range(1, nlev):
+        bt = td[(S.levels[l - 1], S.levels[l])].__self__
+        st = bt.space_transfer
+        ic = TR_CLASSES.index(type(st)) if type(st) in TR_CLASSES else None
+        isp = next((i for i, q in enumerate(TR_SPACE) if getattr(st.params, 'iorder', None) == q['iorder']), None)
+        ib = next((i for i, q in enumerate(TR_BASE) if (bool(bt.params.finter), bt.params.coll_iorder) == (q['finter'], q['coll_iorder'])), None)
+        seen.append((ic, isp, ib))
+        same_len = [n for n in (ncl, nsp, nbp) if n]
+        idx = [i for i, n in zip((ic, isp, ib), (ncl, nsp, nbp)) if n]
+        if None in (ic, isp, ib):
+            out.append(({**sig0, 'kind': 'transfer_entry_not_from_description'}, {'pair': [l - 1, l], 'positions(class, space params, base params)': [ic, isp, ib]}))
+        elif len(set(same_len)) == 1 and len(set(idx)) > 1:
+            out.append(({**sig0, 'kind': 'transfer_entries_from_different_positions'}, {'pair': [l - 1, l], 'positions(class, space params, base params)': [ic, isp, ib]}))
+        for i, n in zip((ic, isp, ib), (ncl, nsp, nbp)):
+            if n == 0 and i != 0:
+                out.append(({**sig0, 'kind': 'scalar_entry_not_shared'}, {'pair': [l - 1, l], 'position': i}))
+    for name, n, col in (('class', ncl, 0), ('space params', nsp, 1), ('base params', nbp, 2)):
+        if 0 < n < nlev and seen[-1][col] != n - 1:
+            out.append(({**sig0, 'kind': 'last_entry_does_not_repeat', 'entry': name}, {'positions_per_pair': [t[col] for t in seen], 'list_length': n}))
+    return out
+
+
+def transfer_cases():
+    return [(nlev, a, b, c) for nlev in (2, 3, 4) for a in range(0, nlev + 1) for b in range(0, nlev + 1) for c in range(0, nlev + 1)]
 
 
 def grammar_case_wrapped(shape):
@@ -707,6 +797,9 @@ def replay(rep, case):
             rep.violation(sig, det, case)
     elif part == 'convergence_controllers':
         for sig, det in cc_case((tuple(case['subset']), case['reverse'], case['P'])):
+            rep.violation(sig, det, case)
+    elif part == 'transfer':
+        for sig, det in transfer_case(tuple(case['arg'])):
             rep.violation(sig, det, case)
     else:
         raise KeyError(part)
